@@ -33,6 +33,19 @@ static long now_ms (void) { return (long) ((vnow_us - t0_us) / 1000); }
 
 /* ------------------------------------------------------------------ trace */
 #define T(...) do { fprintf (hc_out, " | %ld ", now_ms ()); fprintf (hc_out, __VA_ARGS__); } while (0)
+
+/* timer trace (C12, op tracetimers): every timeout source libnice creates goes through g_source_set_name() right after
+ * g_timeout_source_new(); the definition below takes precedence over GLib's for the calls made by the libnice objects linked
+ * into this executable and logs the timer's name and the interval it was armed with */
+#include <dlfcn.h>
+static int trace_timers;
+void g_source_set_name (GSource *src, const char *name)
+{
+  static void (*real) (GSource *, const char *); if (!real) real = (void (*) (GSource *, const char *)) dlsym (RTLD_NEXT, "g_source_set_name");
+  real (src, name);
+  if (trace_timers && hc_out && name) { gint64 rt = g_source_get_ready_time (src);
+    if (rt >= 0) { char nm[80]; size_t k = 0; for (; name[k] && k < 79; k++) nm[k] = name[k] == ' ' ? '_' : name[k]; nm[k] = 0; T ("tmr %s %ld", nm, (long) ((rt - vnow_us) / 1000)); } }
+}
 static void hexs (char *o, const guint8 *b, gsize n, gsize max) { gsize k = n < max ? n : max; for (gsize i = 0; i < k; i++) sprintf (o + 2 * i, "%02x", b[i]); o[2 * k] = 0; }
 static void addr_s (const NiceAddress *a, char *o) { char ip[64]; nice_address_to_string (a, ip); sprintf (o, "%s:%u", ip, nice_address_get_port (a)); }
 
@@ -100,8 +113,10 @@ static gint vs_recv (NiceSocket *sock, NiceInputMessage *msgs, guint n)
   }
   return i;
 }
+static GHashTable *sendfail;    /* destination ip -> 1 : sendto() fails (no route, EPERM ...) */
 static gint vs_send (NiceSocket *sock, const NiceAddress *to, const NiceOutputMessage *msgs, guint n)
 {
+  if (sendfail && g_hash_table_size (sendfail)) { char ip[64]; nice_address_to_string (to, ip); if (g_hash_table_contains (sendfail, ip)) return -1; }
   for (guint i = 0; i < n; i++) {
     gsize len = 0; for (gint b = 0; (msgs[i].n_buffers >= 0 && b < msgs[i].n_buffers) || (msgs[i].n_buffers < 0 && msgs[i].buffers[b].buffer != NULL); b++) len += msgs[i].buffers[b].size;
     guint8 *d = g_malloc (len ? len : 1); gsize off = 0;
@@ -558,6 +573,10 @@ static void do_op (char *op)
   else if (!strcmp (a[0], "unref")) { int i = I (1); if (A[i].agent) { g_object_unref (A[i].agent); A[i].agent = NULL; T ("api %d unref", i); } }
   else if (!strcmp (a[0], "dispatches")) { T ("stat dispatches=%u", dispatch_count); dispatch_count = 0; }
   else if (!strcmp (a[0], "tracepkts")) trace_pkts = I (1);
+  else if (!strcmp (a[0], "tracetimers")) trace_timers = I (1);
+  else if (!strcmp (a[0], "sendfail")) { /* sendfail,ip,on|off : every send to that address fails from now on */
+    if (!sendfail) sendfail = g_hash_table_new_full (g_str_hash, g_str_equal, g_free, NULL);
+    if (!strcmp (a[2], "on")) g_hash_table_insert (sendfail, g_strdup (a[1]), GINT_TO_POINTER (1)); else g_hash_table_remove (sendfail, a[1]); T ("net sendfail %s %s", a[1], a[2]); }
   else T ("?op %s", a[0]);
 }
 
@@ -569,7 +588,7 @@ static int run_case (char *line)
     consec = g_hash_table_new_full (g_str_hash, g_str_equal, g_free, NULL); resp_tokens = g_hash_table_new_full (g_str_hash, g_str_equal, g_free, NULL); blackhole = g_hash_table_new_full (g_str_hash, g_str_equal, g_free, NULL);
     for (int i = 0; i < n_vif; i++) g_free (vif[i]); n_vif = 0;
     atk_period_us = 0; atk_next_us = G_MAXINT64; reqlog_n = 0; srv_loss = 0; n_nat = 0; for (int i = 0; i < MAXA; i++) { g_free (last_sdp[i]); last_sdp[i] = NULL; } for (int i = 0; i < 4; i++) { g_free (old_ufrag[i]); g_free (old_pwd[i]); old_ufrag[i] = old_pwd[i] = NULL; }
-    p_drop = p_dup = 0; d_min_us = d_max_us = 1000; max_consec_loss = 2; vnow_us = 1000000000LL; t0_us = vnow_us; dispatch_count = 0; trace_pkts = 1; spinning = 0;
+    p_drop = p_dup = 0; d_min_us = d_max_us = 1000; max_consec_loss = 2; vnow_us = 1000000000LL; t0_us = vnow_us; dispatch_count = 0; trace_pkts = 1; spinning = 0; trace_timers = 0; if (sendfail) g_hash_table_remove_all (sendfail);
     fprintf (hc_out, "%s", id);
     char *op; int aborted = 0;
     while ((op = strtok_r (NULL, " \n", &sv))) {
